@@ -172,6 +172,8 @@ def candidates(name, kinds):
     """qualified names of all types whose unqualified name is `name`"""
     try:
         s = gdb.execute('info types -q ' + re.escape(name) + '$', to_string=True)
+        if not re.search(r'^\d+:', s, re.M):
+            s = gdb.execute('info types -q ' + re.escape(name) + '<', to_string=True)
     except gdb.error:
         return []
     res = []
@@ -188,7 +190,13 @@ def candidates(name, kinds):
             elif ch in '>)': depth -= 1
             elif ch == ' ' and depth == 0: cut = i + 1
         q = d[cut:]
-        if q == name or q.endswith('::' + name):
+        # strip template arguments of the last component for the comparison
+        depth = 0; base = ''
+        for ch in q:
+            if ch == '<': depth += 1
+            elif ch == '>': depth -= 1
+            elif depth == 0: base += ch
+        if q == name or q.endswith('::' + name) or base == name or base.endswith('::' + name):
             res.append(q)
     return res
 
@@ -267,6 +275,14 @@ for uid, name, q in req.get('structs', []):
                 qn = qname_of(ct)
                 if qn and qn not in cs:
                     cs.append(qn)
+        if len(cs) > 1:
+            # several instantiations of a library template: interchangeable when they are all opaque and of one size
+            try:
+                ts = [gdb.lookup_type(c) for c in cs]
+                if all(not is_transparent(c) for c in cs) and len(set((x.sizeof, x.alignof) for x in ts)) == 1:
+                    cs = [sorted(cs)[0]]
+            except Exception:
+                pass
         if len(cs) == 1:
             t = gdb.lookup_type(cs[0])
         elif len(cs) == 0 and q:
